@@ -1188,6 +1188,23 @@ func genC01PanicKinds(p *Pkg) (string, error) {
 		return "", fmt.Errorf("binding.emitSetP: `if b.isConst` not found")
 	}
 	fmt.Fprintf(&b, "def setPPopsSloppyConst : Bool := %v\n", pops)
+
+	// enterFinally.exec (vm.go): which fields of the try frame it sets to -1
+	ef := p.FuncDecl("enterFinally", "exec")
+	if ef == nil {
+		return "", fmt.Errorf("enterFinally.exec not found")
+	}
+	var cleared []string
+	ast.Inspect(ef.Body, func(n ast.Node) bool {
+		if as, ok := n.(*ast.AssignStmt); ok && len(as.Lhs) == 1 && len(as.Rhs) == 1 && c01exprStr(as.Rhs[0]) == "-1" {
+			if l := c01exprStr(as.Lhs[0]); strings.HasPrefix(l, "tf.") {
+				cleared = append(cleared, strings.TrimPrefix(l, "tf."))
+			}
+		}
+		return true
+	})
+	sort.Strings(cleared)
+	fmt.Fprintf(&b, "def enterFinallyClears : List String := %s\n", c01leanStrList(cleared))
 	b.WriteString("\nend GojaModel.C01.Gen\n")
 	return b.String(), nil
 }
